@@ -210,8 +210,11 @@ func vfC02Plan(s *Serf, tag string, j, l, j2 LamportTime, hasLeave, down, rejoin
 	if rejoin {
 		r.pj2 = vfChoice(tag+".posJ2", r.nnotes+2)
 	}
-	r.lateFirst = vfBool(tag + ".lateFirst") // order of intents that share a position
 	r.gotJ, r.gotL, r.gotJ2 = r.pj <= r.nnotes, r.pl <= r.nnotes, r.pj2 <= r.nnotes
+	// order of intents that share a position (only a choice when two do)
+	if (r.gotJ && r.gotL && r.pj == r.pl) || (r.gotJ && r.gotJ2 && r.pj == r.pj2) || (r.gotL && r.gotJ2 && r.pl == r.pj2) {
+		r.lateFirst = vfBool(tag + ".lateFirst")
+	}
 	return r
 }
 
